@@ -195,6 +195,7 @@ type c38Archive struct {
 	focus     map[int]bool
 	slotObjs  map[int][]c38Object
 	published backup.ArchiveManifest
+	payload   map[string][]byte // full chunk key -> logical bytes that were encoded into it
 }
 
 var c38Ctx = context.Background()
@@ -222,7 +223,7 @@ func c38SlotPrefix(slot int, attempt string) string {
 // c38Build writes 256 Slot artifacts with the real chunk/manifest encoders and publishes
 // them with the real PublishArchive.
 func c38Build(shape c38Shape) (*c38Archive, error) {
-	a := &c38Archive{shape: shape, store: c38NewStore(), root: "backups/" + shape.id + "/", focus: map[int]bool{}, slotObjs: map[int][]c38Object{}}
+	a := &c38Archive{shape: shape, store: c38NewStore(), root: "backups/" + shape.id + "/", focus: map[int]bool{}, slotObjs: map[int][]c38Object{}, payload: map[string][]byte{}}
 	refs := make([]backup.SlotReference, backup.DefaultHashSlotCount)
 	a.slotMan = make([]backup.SlotManifest, backup.DefaultHashSlotCount)
 	for slot := 0; slot < backup.DefaultHashSlotCount; slot++ {
@@ -271,6 +272,7 @@ func c38Build(shape c38Shape) (*c38Archive, error) {
 				man.MaxMessageID = cs.maxID
 			}
 			chunkObjs = append(chunkObjs, c38Object{key: a.root + key, kind: "chunk", slot: slot})
+			a.payload[a.root+key] = payload
 		}
 		body, err := backup.MarshalSlotManifest(man)
 		if err != nil {
